@@ -5,6 +5,7 @@ for d in seeded/*/; do
   name=$(basename "$d")
   prop=$(echo "$name" | cut -c1-3)
   [ -f "$d/patch.diff" ] || continue
+  case "$name" in *OUT-OF-SCOPE*|*NOT-A-*) echo "$name skipped (recorded only: see its meta.json)"; continue;; esac
   res=$(timeout 1200 harness/seedtest.sh "/verif/$d/patch.diff" "$prop" 2>&1 | grep -c "^VIOLATION")
   echo "$name $prop violations_reported=$res"
 done
